@@ -267,4 +267,5 @@ fn main() {}
         "derive lists of FilePos/FileLen reduced to Clone, Copy, PartialEq, Eq, PartialOrd, Ord; their meaning given by *SpecImpl blocks",
         "hasher (which bytes a chunk (pos,len) makes the hasher read) is NOT covered here",
     ]
+    ub.closures_ok = 4   # closures without a specification in the slices on the tree the recipe was written for
     return ub
